@@ -31,7 +31,7 @@ type quiet struct{}
 
 func (quiet) Name() string                                  { return "quiet" }
 func (quiet) Configure(config map[string]interface{}) error { return nil }
-func (quiet) Printf(format string, v ...interface{})       {}
+func (quiet) Printf(format string, v ...interface{})        {}
 
 // ---- client ------------------------------------------------------------------------------------
 
@@ -115,17 +115,19 @@ func (c *client) drain() (got []mqtt.Message) {
 // ---- world -------------------------------------------------------------------------------------
 
 type world struct {
-	svc     *broker.Service
-	clients []*client
-	watcher *client // presence barrier: watches zz/
-	helper  *client // toggles a subscription on zz/
+	svc          *broker.Service
+	clients      []*client
+	watcher      *client // presence barrier: watches zz/
+	helper       *client // toggles a subscription on zz/
 	helperSubbed bool
-	zzKey   string
-	guids   map[string]int
-	pending [][]mqtt.Message // packets collected per modeled client since the last step
+	zzKey        string
+	guids        map[string]int
+	pending      [][]mqtt.Message // packets collected per modeled client since the last step
 }
 
-func isType(t uint8) func(mqtt.Message) bool { return func(m mqtt.Message) bool { return m.Type() == t } }
+func isType(t uint8) func(mqtt.Message) bool {
+	return func(m mqtt.Message) bool { return m.Type() == t }
+}
 
 func (w *world) connectAux(c *client) {
 	c.send(&mqtt.Connect{ClientID: []byte("aux"), Username: []byte("aux")})
@@ -197,10 +199,10 @@ func (w *world) pktTerm(m mqtt.Message) string {
 			return vlib.App("PError", vlib.N(uint64(e.Status)), vlib.N(uint64(e.Req)))
 		case topic == "emitter/presence/":
 			var n struct {
-				Req     uint16 `json:"req"`
-				Status  int    `json:"status"`
-				Event   string `json:"event"`
-				Channel string `json:"channel"`
+				Req     uint16          `json:"req"`
+				Status  int             `json:"status"`
+				Event   string          `json:"event"`
+				Channel string          `json:"channel"`
 				Who     json.RawMessage `json:"who"`
 			}
 			json.Unmarshal(p.Payload, &n)
